@@ -35,3 +35,58 @@ Print Assumptions C14_index_out_of_range.
 Theorem C14_non_numeric_index : forall E key salt xs, parse_usize key = None -> disclose_here E key salt (JArr xs) = Err.
 Proof. exact disclose_here_non_numeric. Qed.
 Print Assumptions C14_non_numeric_index.
+
+(* "issuing succeeds whenever each path addresses an existing member or element, nested paths precede
+   enclosing ones and no path repeats, including when only nested members or only array elements are
+   disclosable": jresolve is resolution of the path in the claims as given (member lookup, JSON-pointer index
+   for inner tokens, usize parse for the last token); `ordered` says that no address comes after itself or
+   after one of its ancestors. Under these premises the issuer's fold accepts the whole list, whatever the
+   salts and insertion positions; and (second part) encode then succeeds and Holder::verify returns the
+   original claims, under the premises of C01_encode_then_holder_verify. *)
+Require Import SDJ.ATree SDJ.T2c SDJ.T1e SDJ.T1j SDJ.T1k SDJ.T1r SDJ.T1p SDJ.Verify SDJ.Restore2.
+Theorem C14_valid_marking_accepted :
+  forall (H : string -> string) (enc : list json -> string) (parse_index parse_usize : string -> option nat) (pos : string -> nat)
+         (C : json) (paths : list (list string * string)) (addrs : list addr) (salts : list json),
+  jwf C -> Forall2 (fun p a => jresolve parse_index parse_usize (fst p) (snd p) C = Some a) paths addrs -> ordered addrs ->
+  List.length paths <= List.length salts ->
+  exists t', T1j.mark_fold H enc parse_index parse_usize pos (embed C) paths salts = Some t'.
+Proof. exact valid_marking_accepted. Qed.
+Print Assumptions C14_valid_marking_accepted.
+
+Theorem C14_valid_marking_issues :
+  forall (E : issue_env) (O : oracles),
+  (forall x y, ie_hash E x = ie_hash E y -> x = y) ->
+  (forall ps, o_dec O (ie_enc E ps) = DJson (JArr ps)) ->
+  o_hash O SHA256 = ie_hash E ->
+  (forall h p j, ie_sign E h p = Val j -> o_jwt O j = Val (h, p)) ->
+  (forall h p, exists j, ie_sign E h p = Val j /\ contains tilde j = false) ->
+  (forall ps, contains tilde (ie_enc E ps) = false) ->
+  (forall xs, Permutation.Permutation (ie_perm E xs) xs) ->
+  forall (ckvs : list (string * json)) (paths : list string) tks (addrs : list addr)
+         (max_decoys : option Z) (cnf : option json) (header : json),
+  jwf (JObj ckvs) -> ~ In "_sd_alg" (map fst ckvs) -> ~ In "cnf" (map fst ckvs) ->
+  NoDup (ie_salts E) -> paths <> [] -> split_paths paths = Some tks ->
+  Forall2 (fun p a => jresolve Issuer2.parse_index Issuer2.parse_usize (fst p) (snd p) (JObj ckvs) = Some a) tks addrs ->
+  ordered addrs -> List.length tks <= List.length (ie_salts E) ->
+  exists t',
+    T1j.mark_fold (ie_hash E) (ie_enc E) Issuer2.parse_index Issuer2.parse_usize (ie_pos E) (embed (JObj ckvs)) tks (ie_salts E) = Some t' /\
+    (NoDup (decoys_used E max_decoys) ->
+     (forall g, In g (decoys_used E max_decoys) -> ~ In g (alldigs (ie_hash E) (ie_enc E) t')) ->
+     (match cnf with Some c => jwf c /\ S (aheight (embed c)) <= 129 | None => True end) ->
+     aheight t' <= 129 ->
+     exists token payload ds ps,
+       issue E (JObj ckvs) paths max_decoys cnf header = Val (token, payload, ds) /\
+       holder_verify O token = Val (header, match cnf with Some c => JObj (obj_insert "cnf" c ckvs) | None => JObj ckvs end, ps)).
+Proof. exact valid_marking_issues. Qed.
+Print Assumptions C14_valid_marking_issues.
+
+(* the premises are satisfiable: a nested member, an array element and then their enclosing member *)
+Example C14_valid_marking_nonvacuous :
+  let C := JObj [("a", JObj [("b", JNum "1"); ("c", JArr [JStr "x"; JStr "y"])])] in
+  Forall2 (fun p a => jresolve Issuer2.parse_index Issuer2.parse_usize (fst p) (snd p) C = Some a)
+          [(["a"], "b"); (["a"; "c"], "1"); ([], "a")] [[SKey "a"; SKey "b"]; [SKey "a"; SKey "c"; SIdx 1]; [SKey "a"]]
+  /\ ordered [[SKey "a"; SKey "b"]; [SKey "a"; SKey "c"; SIdx 1]; [SKey "a"]].
+Proof.
+  split; [repeat constructor|].
+  cbn. repeat split; repeat constructor; intros [c Hc]; discriminate.
+Qed.
